@@ -102,6 +102,13 @@ func arrayElems(b []byte) [][]byte {
 	return out
 }
 
+// firstOrLast: the frame carries the data flag 0x20 ("process first or last"): on a LOCK the operation is
+// carried out only when the key's holds, this request's included, number exactly one level; on an UNLOCK only
+// when nothing is held and nobody waits afterwards. Otherwise the request is served without it.
+func firstOrLast(frame []byte) bool {
+	return len(frame) >= 6 && frame[4]>>6 == protocol.LOCK_DATA_STAGE_CURRENT && frame[5]&protocol.LOCK_DATA_FLAG_PROCESS_FIRST_OR_LAST != 0
+}
+
 // applyValueOp is the sequential interpreter of value operations (C15).
 func applyValueOp(old Val, frame []byte, seqPipeline bool) Val {
 	typ, flags, payload, ok := parseFrame(frame)
@@ -411,6 +418,9 @@ func nextLock(s *MKey, r ReqView, cfg ModelCfg, sameDeadline func(h *MHold) (kno
 	before := s.Val
 	applyData := func(k *MKey) {
 		if r.Data != nil {
+			if firstOrLast(r.Data) && k.locked() != 1 {
+				return // k is the state with this request's hold or level already counted
+			}
 			k.Val = applyValueOp(k.Val, r.Data, cfg.SeqPipeline)
 		}
 	}
@@ -593,6 +603,9 @@ func nextUnlock(s *MKey, r ReqView, cfg ModelCfg, present bool) []Outcome {
 	cur := s.Holders[hi]
 	applyData := func(k *MKey) {
 		if r.Data != nil {
+			if firstOrLast(r.Data) && (k.locked() != 0 || len(k.Waiters) > 0 || k.Waited) {
+				return
+			}
 			k.Val = applyValueOp(k.Val, r.Data, cfg.SeqPipeline)
 		}
 	}
@@ -643,7 +656,7 @@ func nextWake(s *MKey, dataOf func(req [16]byte) ([]byte, *OpSpec), cfg ModelCfg
 		// queued request does not become a second hold under one LockId, it is refused
 		return []Outcome{{After: a, Pred: Pred{Result: protocol.RESULT_LOCKED_ERROR, LRCount: s.Holders[hi].Depth, LCount: uint16(locked), Before: before, LockId: w.Lid}, Note: "refused: its LockId holds the key", SecondReq: w.Req}}
 	}
-	if frame != nil {
+	if after := locked + map[bool]uint32{true: 1, false: 0}[op.Expried > 0]; frame != nil && !(firstOrLast(frame) && after != 1) {
 		a.Val = applyValueOp(a.Val, frame, cfg.SeqPipeline)
 	}
 	if op.Expried > 0 {
